@@ -486,6 +486,47 @@ def replay_labels(T, K, group=False, mapping=False):
     return run
 
 
+def replay_labels_unit(T, K, group=False, mapping=False):
+    """Unit-level replay on the real loader code: the alignment model is replaced by one whose align() returns the
+    winning candidate indices of the counterexample, everything downstream (remainder choice, label reduction,
+    uint8 cast, feature table) is the real code."""
+
+    def run(cex):
+        from acryo import SubtomogramLoader, Molecules
+        from acryo.alignment import ZNCCAlignment
+        from acryo.alignment._base import AlignmentResult
+        import itertools as it
+
+        iopts = [int(frac(cex.get(f"iopt{i}", 0))) for i in range(2)]
+        tomo = np.zeros((12, 12, 12), dtype=np.float32)
+        feats = {"g": [0, 0]} if group else None
+        ld = SubtomogramLoader(tomo, Molecules([[6, 6, 6], [5, 5, 5]], features=feats), order=1, scale=1.0)
+        temps = [np.zeros((3, 3, 3), dtype=np.float32) + j for j in range(T)]
+        counter = it.count()
+
+        class Fake(ZNCCAlignment):
+            def __init__(self, template, mask=None, **kw):
+                self._template = np.stack(template, axis=0) if not isinstance(template, np.ndarray) else template
+                self._n_templates = T
+                self._n_rotations = K
+                self._ndim = 3
+
+            def align(self, img, max_shifts, quaternion=None, pos=None, backend=None):
+                i = next(counter)
+                return AlignmentResult(iopts[i % 2], np.zeros(3, dtype=np.float32), np.array([0, 0, 0, 1], dtype=np.float32), 1.0)
+
+        if group:
+            out = ld.groupby("g").align_multi_templates({0: temps} if mapping else temps, alignment_model=Fake)
+            labels = [int(v) for v in next(iter(out))[1].features["labels"]]
+        else:
+            out = ld.align_multi_templates(temps, alignment_model=Fake)
+            labels = [int(v) for v in out.features["labels"]]
+        want = [i % T for i in iopts]
+        return labels != want, {"T": T, "K": K, "winning_candidates": iopts, "labels": labels, "want": want, "group": group, "mapping": mapping}
+
+    return run
+
+
 def sec_labels(rec, T=2, K=2, group=False, mapping=False, patches=None):
     L = _load(patches)
     B, xp, ndi = _setup(L, T, K)
@@ -508,7 +549,15 @@ def sec_labels(rec, T=2, K=2, group=False, mapping=False, patches=None):
         hyps.append(sum((c.e * c.e for c in q), z3.RealVal(0)) == 1)
         qs.append(q)
     tag = f"labels[T={T},K={K},{'group' if group else 'loader'}{',mapping' if mapping else ''}]"
-    rp = replay_labels(T, K, group, mapping)
+    rp_api = replay_labels(T, K, group, mapping)
+    rp_unit = replay_labels_unit(T, K, group, mapping)
+
+    def rp(cex):
+        ok, det = rp_unit(cex)
+        if ok or T > 3 or K > 3:
+            return ok, det
+        return rp_api(cex)
+
     import inspect
 
     # which `remainder` does the real caller compute?  Execute the caller's own lines on stand-ins.
@@ -644,6 +693,9 @@ def sections(tier):
             S.append((f"labels-groupmap-T{T}K{K}", "checks.c06", "sec_labels", {"T": T, "K": K, "group": True, "mapping": True}))
             if T * K <= (9 if quick(tier) else 16):
                 S.append((f"fit-T{T}K{K}", "checks.c06", "sec_fit", {"T": T, "K": K}))
+    # more than 256 candidates: the label column is a uint8, the reduction modulo T must come first
+    for grp in (False, True):
+        S.append((f"labels-many-candidates-{'group' if grp else 'loader'}", "checks.c06", "sec_labels", {"T": 3, "K": 100, "group": grp}))
     S.append(("decode-symbolic", "checks.c06", "sec_decode_symbolic", {"Tmax": 8 if quick(tier) else 24, "Kmax": 8 if quick(tier) else 24}))
     return S
 
@@ -666,6 +718,8 @@ MUTANTS = [
     ("fit:revert-quaternion-pairing", "checks.c06", "sec_fit", {"T": 2, "K": 2}, {_B: [("                self.quaternions[i // self._n_templates],\n", "                self.quaternions[i % self._n_rotations],\n")]}),
     ("fit:reported-rotation", "checks.c06", "sec_fit", {"T": 2, "K": 2}, {_B: [("            quat=self.quaternions[iopt // self._n_templates],\n", "            quat=self.quaternions[iopt % self._n_rotations],\n")]}),
     ("fit:truncated-candidates", "checks.c06", "sec_fit", {"T": 2, "K": 1}, {_B: [("        for i, (tmp, mask) in enumerate(zip(_template, _mask)):", "        for i, (tmp, mask) in enumerate(zip(_template[: self._n_rotations], _mask)):")]}),
+    ("labels:uint8-cast-before-modulo", "checks.c06", "sec_labels", {"T": 3, "K": 100},
+     {_LB: [("        if remainder > 0:\n            labels %= remainder  # type: ignore\n        labels = labels.astype(np.uint8)\n", "        labels = labels.astype(np.uint8)\n        if remainder > 0:\n            labels %= remainder  # type: ignore\n")]}),
     ("labels:remainder-is-K", "checks.c06", "sec_labels", {"T": 2, "K": 3}, {_LB: [("            remainder = len(_templates)\n", "            remainder = model._n_rotations\n")]}),
 ]
 
@@ -684,7 +738,7 @@ def run(tier, procs=None, only=None):
                 "labels": "2 molecules, symbolic winners, symbolic unit quaternions, shifts, scores"},
         trusted_base=TRUSTED + ["real dask.delayed/compute (synchronous scheduler)", "real polars with Object columns for symbolic feature values",
                                 "SymRotation (quaternion algebra) for the rotation bookkeeping"],
-        outside=["which candidate scores highest on real images", "uint8 wrap-around of labels for more than 256 candidates"],
+        outside=["which candidate scores highest on real images", "more than 256 templates (the uint8 label column cannot hold them)"],
         mutants=MUTANTS if (not quick(tier) and not only) else None,
     )
 
